@@ -186,3 +186,39 @@ func Harness_C14_concurrentWriters() {
 		vAssert(cold.FixLogLeaf(ctx, leaf) == nil && bytes.Equal(leaf.ExtraData, direct.ExtraData), "an accepted submission is readable from the store alone, with the default mode's bytes")
 	}
 }
+
+// Harness_C14_lruKeys: the real LRU cache distinguishes keys of every length: after a chain was
+// cached under its 32-byte hash H, a lookup for H followed by another byte, for H cut short, or
+// for a key that differs from H in its last byte misses (so that an unknown hash in a stored
+// reference goes to the store and yields an error, never another chain's data).
+//
+//verif:opt maxpaths=400 reach=checked
+func Harness_C14_lruKeys() {
+	ctx := context.Background()
+	c := lru.NewIssuanceChainCache(lru.CacheOption{Size: 4, TTL: 0})
+	h := vBytes("hash", 32)
+	last := vU8("last-byte-variant")
+	chain := []byte{0x30, 0x03, 0x04, 0x01, 0xa1}
+	vAssert(c.Set(ctx, h, chain) == nil, "cached")
+	got, err := c.Get(ctx, h)
+	vAssert(err == nil && bytes.Equal(got, chain), "a hit returns what was set for that key")
+	for _, k := range [][]byte{append(append([]byte{}, h...), vU8("extra")), h[:31], h[:0], append(append([]byte{}, h[:31]...), last)} {
+		if len(k) == 32 && k[31] == h[31] {
+			continue
+		}
+		got, err = c.Get(ctx, k)
+		vAssert(err == nil && got == nil, "a different key misses, whatever its length")
+	}
+	// through the service: a stored reference whose hash is H plus a byte is an unknown hash
+	store := &c14LockedStore{m: map[string][]byte{}}
+	svc := newIndirectIssuanceChainService(store, c)
+	bad := &trillian.LogLeaf{ExtraData: rfcCertificateChainHash(append(append([]byte{}, h...), 7))}
+	before := append([]byte{}, bad.ExtraData...)
+	vAssert(svc.FixLogLeaf(ctx, bad) != nil && bytes.Equal(bad.ExtraData, before), "an unknown hash is an error and leaves the entry alone")
+	vReach("checked")
+}
+
+// struct { opaque issuance_chain_hash<0..256>; } CertificateChainHash (2-byte length prefix)
+func rfcCertificateChainHash(hash []byte) []byte {
+	return append([]byte{byte(len(hash) >> 8), byte(len(hash))}, hash...)
+}
